@@ -207,3 +207,22 @@ def pristine(modname, funcname, *args, **kwargs):
     pr.join(10)
     if pr.is_alive(): pr.kill()
     return res
+
+
+def epoch_tables(df, center, epochs, drop_samples=False):
+    """expected epoch tables from a Lean `epoch.spec` answer: list of epochs, each a list of [row id, six shifted samples]"""
+    cols = PEAK_COLS if center == 'peak' else TROUGH_COLS
+    tabs = []
+    for ep in epochs:
+        rids = [int(r[0]) for r in ep]
+        t = df.iloc[rids].reset_index(drop=True).copy()
+        for k, col in enumerate(cols):
+            t[col] = np.array([int(r[1][k]) for r in ep], dtype=df[col].dtype) if len(ep) else t[col]
+        if drop_samples:
+            t = t[[c_ for c_ in t.columns if not c_.startswith('sample_')]]
+        tabs.append(t)
+    return tabs
+
+def epoch_rows_enc(df, center):
+    rows = sample_rows(df, center)
+    return '[' + ','.join('[%d,[%s]]' % (i, ','.join(str(v) for v in r)) for i, r in enumerate(rows)) + ']'
